@@ -189,3 +189,37 @@ pub fn key_id(id_header: &[u8], text: &[u8]) -> [u8; 33] {
     o.copy_from_slice(&d[..33]);
     o
 }
+
+// ------------------------------------------------------------------------------------------------ PASERK k1: PKE (RSA-KEM)
+/// PKE seal (v1), steps 1-7 of operations/PKE.md "V1 Encryption" for a 4096-bit RSA key. RSA itself is not expressible over
+/// vmodel-core's uf (512-byte values), so the caller supplies c = r^e mod n as the 512-byte big-endian string the
+/// specification means; `r_raw` are the 512 random bytes of step 1 BEFORE the top bits are fixed.
+/// Returns t(48) ‖ edk(32) ‖ c(512). Needs vmodel-core MCAP >= 552.
+pub fn pke_mask_r(r_raw: &[u8; 512]) -> [u8; 512] {
+    // r: 4096 random bits with the first bit cleared and the second bit set
+    let mut r = *r_raw;
+    r[0] &= 0x7f;
+    r[0] |= 0x40;
+    r
+}
+pub fn pke_seal_with(r: &[u8; 512], c: &[u8; 512], pdk: &[u8; 32]) -> [u8; 592] {
+    // x = HMAC-SHA384(msg = 0x01 || h || r, key = SHA384(c)); Ek = x[0:32]; n = x[32:]
+    let k = sha384(c);
+    let x = hmac_sha384(&k, cat(&[b"\x01k1.seal.", r]).as_slice());
+    // Ak = HMAC-SHA384(msg = 0x02 || h || r, key = SHA384(c))
+    let ak = hmac_sha384(&k, cat(&[b"\x02k1.seal.", r]).as_slice());
+    let mut ek = [0u8; 32];
+    ek.copy_from_slice(&x[..32]);
+    let mut n = [0u8; 16];
+    n.copy_from_slice(&x[32..]);
+    // edk = AES-256-CTR(msg = pdk, key = Ek, nonce = n)
+    let mut edk = *pdk;
+    aes256_ctr_xor(&ek, &n, &mut edk);
+    // t = HMAC-SHA384(msg = h || c || edk, key = Ak)
+    let t = hmac_sha384(&ak, cat(&[b"k1.seal.", c, &edk]).as_slice());
+    let mut out = [0u8; 592];
+    out[..48].copy_from_slice(&t);
+    out[48..80].copy_from_slice(&edk);
+    out[80..].copy_from_slice(c);
+    out
+}
